@@ -55,6 +55,7 @@ class Cat:
                     self.emit(f"group 0 #{s} #{t} #{g}")
         if full:
             self.emit("stats 0")
+            self.emit("created 0")      # creation times of streams, topics, users
         for c in self.conns:
             self.emit(f"me {c}")
 
